@@ -511,8 +511,14 @@ func (p *Packer) Unpack(r io.Reader, dst string) error {
 		if info.IsSymlink() {
 			// Validate against the path the link is really created at: a rooted
 			// entry name ("/a/l") has its leading slash stripped for extraction,
-			// but would be taken as an absolute location by validSymlink.
-			if ok, err := p.validSymlink(dst, info.Path, header.Linkname); ok {
+			// but would be taken as an absolute location by validSymlink. With
+			// a relative dst that path is relative to the working directory,
+			// not to dst, so make it absolute first.
+			linkPath, err := filepath.Abs(info.Path)
+			if err != nil {
+				return fmt.Errorf("failed making path %q absolute: %w", info.Path, err)
+			}
+			if ok, err := p.validSymlink(dst, linkPath, header.Linkname); ok {
 				// Create the symlink.
 				if err = os.Symlink(header.Linkname, info.Path); err != nil {
 					return fmt.Errorf("failed creating symlink (%q -> %q): %w",
